@@ -21,7 +21,9 @@ RULE = (
     "end of file; (iv) for every construct: every line prefix, every prefix ending inside the last line, and tab / "
     "form-feed / CR variants (invalid inputs); (v) degenerate calls: 31 builtin / library functions the rules pattern-match on x 19 missing, empty or "
     "ill-shaped argument lists in 4 positions; (vi) scaling family of the self-recursive rules, n in {1,5,50} "
-    "(thorough: 400; 120 for the super-linear context-manager family). entry points: format_code under default and safe (thorough: + keep_imports, preserve), "
+    "(thorough: 120; the rules are polynomial, see units()); (vii) 28 constant expressions whose value is astronomically large or slow "
+    "(9 ** 9 ** 9 ** 9, 'a' * 10 ** 10, 0.5 in range(10 ** 11), ...) in 5 positions, each call in a hard-killed child process with 20 CPU seconds; (viii) runs of 30 and 60 blank / whitespace-only lines of 6 kinds in 9 places "
+    "(module, def, class, inside a string, inside brackets, invalid fragment), same child process. entry points: format_code under default and safe (thorough: + keep_imports, preserve), "
     "and every rule on inputs that parse. oracle: no exception of any kind escapes, result is a str, < 300 CPU seconds per call, and an "
     "input that is invalid even after dedent comes back equal up to whitespace. non-trivial = the call got past the "
     "validity gate (valid input) or exercised the hand-back path (invalid input)"
@@ -32,6 +34,7 @@ ASSUMPTIONS = [
 ]
 
 
+HUGE_CPU_LIMIT = 20  # CPU seconds for one call on a "huge constant" input (answers take milliseconds or never come)
 CPU_LIMIT = 300  # CPU seconds per call (typical 0.05-0.5 s; the slowest admitted scaling case needs ~25 s)
 
 
@@ -59,6 +62,26 @@ DEGENERATE_FUNCS = ["sum", "len", "sorted", "list", "set", "dict", "tuple", "ran
                     "itertools.chain", "heapq.nsmallest", "np.matmul", "np.dot", "logging.info", "collections.defaultdict"]
 DEGENERATE_ARGS = ["", "[]", "()", "{}", "set()", "''", "None", "[x for x in []]", "(x for x in ())", "range()", "range(1, 2, 3, 4)",
                    "*a", "**k", "*[], **{}", "[], []", "lambda: 0", "x=1", "[[]]", "..."]
+
+
+# long runs of blank / whitespace-only lines (family added after the seeded change C04-blank-line-regex-order-
+# backtracking: a regex that backtracks exponentially in the length of such a run); run in a hard-killed child
+BLANK_KINDS = {"empty": "\n", "spaces": "    \n", "tab": "\t\n", "mixed": " \n\n\t \n", "formfeed": "\x0c\n", "cr": "\r\n"}
+BLANK_PLACES = {
+    "module_middle": lambda run: "a = 1\n" + run + "b = 2\nprint(a, b)\n",
+    "module_start": lambda run: run + "a = 1\nprint(a)\n",
+    "module_end": lambda run: "a = 1\nprint(a)\n" + run,
+    "in_def": lambda run: "def f(x):\n    y = x\n" + run + "    return y\nprint(f(1))\n",
+    "after_def": lambda run: "def f(x):\n    return x\n" + run + "print(f(1))\n",
+    "in_class_before_method": lambda run: "class K:\n    a = 1\n" + run + "    def m(self):\n        return self.a\nprint(K().m())\n",
+    "in_string": lambda run: "s = '''x\n" + run + "y'''\nprint(len(s))\n",
+    "in_parens": lambda run: "r = [\n    1,\n" + run + "    2,\n]\nprint(r)\n",
+    "invalid_fragment": lambda run: "    a = 1\n" + run + "  b = (\n",
+}
+
+
+def blank_run_program(kind, n, place):
+    return BLANK_PLACES[place](BLANK_KINDS[kind] * n)
 
 
 def degenerate_calls(func):
@@ -111,9 +134,17 @@ def units(tier):
         yield {"t": "invalid", "construct": n}
     for f in DEGENERATE_FUNCS:
         yield {"t": "degenerate", "func": f}
+    for e in progs.HUGE_EXPRS:
+        yield {"t": "huge", "expr": e}
+    for kind in BLANK_KINDS:
+        for n in (30, 60):
+            yield {"t": "blankrun", "kind": kind, "n": n}
     for fam in SCALE:
-        sizes = (1, 5, 50) if tier == "quick" else ((1, 5, 50, 120) if fam == "context_manager" else (1, 5, 50, 400))
-        for n in sizes:  # missing_context_manager is super-linear (680 CPU s at n=400): slow, not non-terminating
+        # the recursive rules are polynomial, not linear (measured: move_before_loop ~n^2.7, 104 CPU s at n=200;
+        # simplify_if_control_flow under safe ~n^2.1, 324 s at n=200; missing_context_manager 680 s at n=400): slow, not
+        # non-terminating, so the largest size is chosen to finish well inside the 300 s limit
+        sizes = (1, 5, 50) if tier == "quick" else (1, 5, 50, 120)
+        for n in sizes:
             yield {"t": "scale", "family": fam, "n": n}
 
 
@@ -159,7 +190,15 @@ def check_input(src, label, tier, with_rules=True, cfgs=None, only=None):
                "preserve_x": {"preserve": ["x", "f", "a", "r", "g"]}, None: None}[cname]
         desc = {"input": label, "entry": ep}
         res["n"] += 1
-        status, val, dt = _call(entry, src, cfg)
+        if label[0] in ("huge", "blankrun"):
+            # hard-killed child: a regression here spins inside one C call, where no signal handler runs
+            got = progs.isolated(_call, entry, src, cfg, cpu_limit=HUGE_CPU_LIMIT)
+            status, val, dt = got[1] if got[0] == "ok" and len(got[1]) == 3 else ("killed", got[1], float(HUGE_CPU_LIMIT))
+        else:
+            status, val, dt = _call(entry, src, cfg)
+        if status == "killed":
+            res["viol"].append(violation(entry, "timeout", "%s on %s: %s" % (ep, label, val), desc, key=key_of(desc)))
+            continue
         if dt > 5:
             st["calls_over_5s"] = st.get("calls_over_5s", 0) + 1
         k = key_of(desc)
@@ -215,6 +254,12 @@ def _inputs_of(unit):
             yield ["degenerate", unit["func"], a], src, True
     elif t == "scale":
         yield ["scale", unit["family"], unit["n"]], SCALE[unit["family"]](unit["n"]), unit["n"] <= 50
+    elif t == "huge":
+        for pos in progs.HUGE_POSITIONS:
+            yield ["huge", unit["expr"], pos], progs.huge_program(unit["expr"], pos), True
+    elif t == "blankrun":
+        for place in BLANK_PLACES:
+            yield ["blankrun", unit["kind"], unit["n"], place], blank_run_program(unit["kind"], unit["n"], place), "layout"
 
 
 def resolve(label):
@@ -230,6 +275,10 @@ def resolve(label):
         return dict(degenerate_calls(label[1]))[label[2]]
     if label[0] == "scale":
         return SCALE[label[1]](label[2])
+    if label[0] == "huge":
+        return progs.huge_program(label[1], label[2])
+    if label[0] == "blankrun":
+        return blank_run_program(label[1], label[2], label[3])
     raise KeyError(label)
 
 
@@ -241,6 +290,9 @@ def run_unit(unit):
         if with_rules == "expr":
             with_rules = False
             cfgs = ["default"] if tier == "quick" else ["default", "safe"]
+        if with_rules == "layout":
+            with_rules = False
+            cfgs = ["default"]
         _merge(res, check_input(src, label, tier, with_rules=with_rules, cfgs=cfgs))
     return res
 
